@@ -274,6 +274,10 @@ var FixedFamilies20 = func() []Family20 {
 	add("domain-host", "http://", "h", ".com/", "", "parse", "href", "gsb", "semantic")
 	add("dotted-labels", "http://", "a.", "com/", "", "parse", "href", "gsb", "semantic")
 	add("dotted-numbers", "http://", "1.", "1/", "", "parse", "gsb")
+	add("host-dot-run", "http://a", ".", "b/", "", "parse", "gsb", "semantic")
+	add("host-leading-dots", "http://", ".", "a.com/", "", "gsb", "semantic")
+	add("host-trailing-dots", "http://a.com", ".", "/", "", "parse", "gsb", "semantic")
+	add("host-dots-percent", "http://a", "%2e", "b/", "", "gsb", "semantic")
 	add("host-percent", "http://", "%61", ".com/", "", "parse", "gsb")
 	add("host-invalid-bytes", "http://", "\xff", ".com/", "", "gsb", "semantic")
 	add("ipv6-garbage", "http://[", "1:", "]/", "", "parse")
@@ -340,12 +344,21 @@ var FixedFamilies20 = func() []Family20 {
 }()
 
 var c20Units = []string{"a", "/", "/a", "/.", "/..", "@", ":", "%", "%41", "%2e", "é", "\xff", "&a=b", "&", "=", "+", ".", "a.", "1.", "\\", "?", "#", " ", "\t", "[", "]", "0", "0x", "|", "C|/", "'", "\"", "<", "{", "^", ";", "~", "xn--", "%25", "\u00ad", "ß", "💩"}
-var c20Ops = []string{"parse", "parse", "href", "getters", "pathname", "searchparams", "clone", "gsb", "semantic", "whatwgsort", "reparse", "resolve", "report", "sp-sort", "set:search", "set:pathname", "set:username", "set:hash", "set:host", "set:hostname"}
+var c20Ops = []string{"parse", "parse", "gsb", "gsb", "semantic", "semantic", "href", "getters", "pathname", "searchparams", "clone", "whatwgsort", "reparse", "resolve", "report", "sp-sort", "set:search", "set:pathname", "set:username", "set:hash", "set:host", "set:hostname"}
 var c20Templates = []string{"http://u:p@h:81/p/q?a=b&c=d#f", "foo://u@h/p?q#f", "foo:opaque?q#f", "file:///C:/p?q#f", "https://a.b.c/x/../y/./z?%41=%42#%43", "http://h", "a:", "//h/p", "/p?q", "?q", "#f", ""}
+
+// c20Slots: the repeated unit goes into one structural position ("{}") of a URL.
+var c20Slots = []string{"http://{}@h/", "http://u:{}@h/", "http://{}/", "http://a{}b/", "http://h{}.com/p", "http://h:{}/", "http://h/{}", "http://h/p{}q", "http://h/?{}", "http://h/?a={}", "http://h/?{}=b", "http://h/#{}",
+	"foo:{}", "foo://{}/", "foo://u:{}@h/", "foo://h/{}?q", "file:///{}", "file://{}/p", "{}", "//{}/p", "/{}", "?{}", "#{}", "{}://h/", "http://[{}]/", "http:{}h/", "ws://h/{}/../{}"}
 
 func Gen20(t *rapid.T) Family20 {
 	tpl := gen.Pick(t, "template", c20Templates)
 	pos := rapid.IntRange(0, len(tpl)).Draw(t, "pos")
+	if rapid.IntRange(0, 2).Draw(t, "slotted") != 0 {
+		slot := gen.Pick(t, "slot", c20Slots)
+		i := strings.Index(slot, "{}")
+		tpl, pos = slot[:i]+strings.ReplaceAll(slot[i+2:], "{}", "x"), i
+	}
 	var unit string
 	if rapid.IntRange(0, 2).Draw(t, "unitKind") == 0 {
 		k := rapid.IntRange(1, 2).Draw(t, "unitAtoms")
